@@ -43,6 +43,7 @@ def main():
         p = os.path.join(HERE, path)
         return open(p).read() if os.path.exists(p) else "(not generated yet)"
     head = head.replace("{{NFIXED}}", str(sum(1 for f in k if f["status"] == "fixed")))
+    head = head.replace("{{NKNOWN}}", str(sum(1 for f in k if f["status"] == "known")))
     out = head.replace("{{RULES}}", rules).replace("{{FINDINGS}}", findings) \
         .replace("{{SEEDS}}", read("seeded/RESULTS.md")).replace("{{REFACTORS}}", read("refactors/RESULTS.md"))
     open(os.path.join(HERE, "DESIGN.md"), "w").write(out)
